@@ -6,8 +6,43 @@ OPTS = [dict(), dict(p_alias=0.7), dict(p_nonexcl=0.5, max_t=4), dict(p_nonexcl=
         dict(p_fwdarg=0.9, max_m=4, max_t=3, p_validate=0.3, p_alias=0.3, p_nonexcl=0.1, p_struct=0.3, _weight=2)]
 
 
+def arg_forms(rep):
+    """The forms of handing over an argument (kwargs, dict, struct-shaped signals with the fields in any order,
+    provide() aliases): every field arrives by NAME (specs/core/ArgForms.tla judges every row)."""
+    import json
+    import os
+    import tempfile
+    from vlib import argforms, tlc
+    rows = argforms.all_rows(rep.seed, rep.tier == "thorough")
+    fd, path = tempfile.mkstemp(prefix="vargf_", suffix=".json")
+    try:
+        with os.fdopen(fd, "w") as fh:
+            json.dump(rows, fh)
+        res = tlc.run("ArgForms", "SPECIFICATION Spec\nCHECK_DEADLOCK FALSE\n", env={"TRACE_FILE": path}, workers=1)
+    finally:
+        os.unlink(path)
+    tlc.require_ok(res, "ArgForms")
+    done = tlc.tagged(res, "DONE")
+    if not done or done[0]["rows"] != len(rows):
+        raise tlc.MachineryError("ArgForms: not every row was judged")
+    seen = set()
+    for r in tlc.tagged(res, "REJECT"):
+        row = rows[r["tid"] - 1]
+        key = (row["form"], tuple(row["fields"]), tuple(row["perm"]))
+        if key in seen:
+            continue
+        seen.add(key)
+        rep.violation({"component": "argument forms", "cfg": {"form": row["form"], "fields": row["fields"], "perm": row["perm"]},
+                       "clauses": sorted(r["clauses"]), "observed": row})
+    rep.add("argument_form_rows", len(rows))
+    rep.add("states", res.distinct)
+    rep.coverage["argument_forms"] = argforms.FORMS
+
+
 def run(rep):
     core_check(rep, "C05", [dict(o) for o in OPTS], 96, 2400, nontrivial_key="impl_designs_built")
+    arg_forms(rep)
+    rep.coverage["evaluations"] = rep.coverage.get("evaluations", 0) + rep.coverage.get("argument_form_rows", 0)
     rep.coverage["rule"] = ("random designs from vlib/coregen.py's grammar built with the real API, every valuation of the "
                             "control inputs (or random ones when there are many), both directions bound by TxnCoreTrace; "
                             "clauses ArgRouting (exclusive: argument of the single active site; nonexclusive: OR-combiner over exactly the active sites) and ResultRouting (through provide() alias chains of length 0-3); distinct_nontrivial = built designs")
